@@ -135,6 +135,7 @@ def eval_prog(ld, st):
 def chain_programs():
     """w -> mid -> inner chains (depths 0, 1, 2) and the same callee reached twice at different depths."""
     src = '''
+from sigtools import wrappers, modifiers
 def CH_inner(x, y=0, *, z):
     return 0
 def CH_mid(m, *args, **kwargs):
@@ -149,6 +150,23 @@ def CH_twice_long_first(t, *args, **kwargs):
     if FLAG:
         return CH_mid(0, *args, **kwargs)
     return CH_inner(*args, **kwargs)
+def CH_deco(func, d, *args, **kwargs):
+    return func(*args, **kwargs)
+CH_wrapped_wd = wrappers.wrapper_decorator(CH_deco)(CH_inner)
+CH_wrapped_d = wrappers.decorator(CH_deco)(CH_inner)
+CH_wrapped_mid_wd = wrappers.wrapper_decorator(CH_deco)(CH_mid)
+class CH_K(object):
+    @modifiers.annotate(x=int)
+    def annotated(self, x, y=0):
+        return x
+    @modifiers.annotate(x=int)
+    @modifiers.kwoargs('y')
+    def annotated_kwo(self, x, y=0):
+        return x
+    @modifiers.kwoargs('y')
+    @modifiers.annotate(x=int)
+    def kwo_annotated(self, x, y=0):
+        return x
 '''
     return src
 
@@ -175,6 +193,30 @@ def eval_chains(st):
                 if kind == 'sources-duplicate':
                     continue        # classified on the grammar programs
                 st.violation(kind, {'op': 'chain', 'name': name}, dict(detail, program=name, sources=alg.src_show(sig)), {})
+        # wrappers objects: the wrapper object, the wrapping function it calls, the wrapped function that one calls (and on)
+        for name, chain in (('CH_wrapped_wd', ['CH_deco', 'CH_inner']), ('CH_wrapped_d', ['CH_deco', 'CH_inner']),
+                            ('CH_wrapped_mid_wd', ['CH_deco', 'CH_mid', 'CH_inner'])):
+            for getter in (sigtools.signature, inspect.signature):
+                st.inc('states')
+                st.inc('transitions')
+                sig = getter(g(name))
+                got = dict((label(f), d) for f, d in sig.sources['+depths'].items())
+                along = [got.get(nm) for nm in chain]
+                if None in along or any(b <= a for a, b in zip(along, along[1:])) or min(got.values()) != 0 or along[0] < 1:
+                    st.violation('depth-chain', {'op': 'chain', 'name': name},
+                                 {'program': name, 'reported': str(sig), 'depths': got, 'chain_of_forwarding': ['<the wrapper object>'] + chain,
+                                  'rule': 'depths start at 0 at the outermost callable and strictly increase along the chain'},
+                                 {'object': 'wrappers'})
+        # annotate / modifiers on methods, retrieved through an instance
+        inst = g('CH_K')()
+        for name in ('annotated', 'annotated_kwo', 'kwo_annotated'):
+            for getter in (sigtools.signature, S.signature, inspect.signature):
+                st.inc('states')
+                st.inc('transitions')
+                sig = getter(getattr(inst, name))
+                for kind, detail in problems(sig):
+                    st.violation(kind, {'op': 'chain', 'name': name},
+                                 dict(detail, program='CH_K().%s' % name, reported=str(sig), sources=alg.src_show(sig)), {'object': 'bound-method'})
     finally:
         batch.close()
 
